@@ -964,6 +964,14 @@ func (e *engine) run(c *Case, f *Fault) runOut {
 	s := sched.New(sched.Config{Policy: c.Policy, SwitchPct: c.SwitchPct, YieldPct: c.YieldPct, PCTDepth: 2, PCTHorizon: 2000, HoldPct: holdPct(c),
 		Salt: c.Salt, Budget: 300000}, tp)
 	out.s = s
+	if tf := os.Getenv("C07_TRACE"); tf != "" {
+		// debugging aid: the event log of every run, appended to one file
+		if tfh, err := os.OpenFile(tf, os.O_APPEND|os.O_CREATE|os.O_WRONLY, 0o644); err == nil {
+			defer tfh.Close()
+			fmt.Fprintf(tfh, "=== run fault=%v\n", f)
+			s.Trace = tfh
+		}
+	}
 	// the production interrupt seam
 	scope.InterruptCheck = func() {
 		if s.CurID() != 0 {
@@ -991,7 +999,9 @@ func (e *engine) run(c *Case, f *Fault) runOut {
 	sess := simos.Begin(plan)
 	sess.KeepLog = false
 	out.markerSteps = map[int]bool{}
-	lw := &lispsim.World{S: s, OnEmit: func(task int, text string) {
+	// (the per-run suffix of generated function names shows in a printed
+	// exit object, "#<return-result fn5x<run>>": it differs from run to run)
+	lw := &lispsim.World{S: s, Scrub: "x" + filepath.Base(dir), OnEmit: func(task int, text string) {
 		out.marks = append(out.marks, mark{task, text})
 		if task == 0 {
 			out.markerSteps[out.evals] = true
